@@ -115,6 +115,12 @@ def handle (I : Interner) (line : Json) : Json :=
   | "lex" =>
     let ty := (strD c "type").toList
     let v := (strD c "value").toList
+    if strD c "type" == "pysaml2:valid_domain_name" then
+      -- the library's own lexical check behind valid_instance (SubjectLocality/@DNSName)
+      let ok := Lex.domainNameOk v
+      Json.mkObj [("model", Json.mkObj [("ok", ok)]), ("path", Json.str ("lex/valid_domain_name" ++ (if ok then "/ok" else "/bad"))),
+        ("spec_model", true), ("spec_impl", true)]
+    else
     match S.typeNames.find? (fun p => p.1 == ty) with
     | some (_, .simple st) =>
       let ok := st.ok v
